@@ -2,9 +2,12 @@
    Nothing but the property theorems.  [join_stage n icaps ocaps]: goroutine i copies input i to the
    shared output 0; a wg.Wait() goroutine closes it (Pipe/Stages.v, mirroring pipe.Join).  [rcvd s 0]
    is the received sequence with its ghost origin tags; [mine i] selects the sub-sequence that came
-   from input i.  For every number of inputs, capacities and schedule. *)
+   from input i.  For every number of inputs, capacities and schedule - and for every ARRIVAL ORDER: the
+   last theorems say that no input is ever starved by another one (whenever the stage is at rest, each
+   input's goroutine has returned, or accepts the next send at once, or is held back by a full OUTPUT). *)
 From Coq Require Import List ZArith Permutation.
-From Golem Require Import Base.Lists Pipe.Pool Pipe.Stages Pipe.PoolSteps Pipe.PoolLive Pipe.PoolSeq Pipe.PoolMultiStages.
+From Golem Require Import Base.Lists Pipe.Pool Pipe.Stages Pipe.PoolSteps Pipe.PoolLive Pipe.PoolSeq Pipe.PoolMultiStages
+     Pipe.PoolJoinServed.
 Import ListNotations.
 
 (* in every reachable state (cancelled or not): no panic; the output is an interleaving of prefixes of the
@@ -44,3 +47,57 @@ Theorem C12_join_zero_closes : forall (n : nat) (icaps ocaps : list nat),
   n = 0%nat -> exists s, exec (join_stage n icaps ocaps) [ECloser] = Some s /\ cclosed (outs s 0) = true.
 Proof. exact join_zero_closes. Qed.
 Print Assumptions C12_join_zero_closes.
+
+(* ANY ARRIVAL ORDER - no input is starved by another one.  Whenever the stage is at rest (not cancelled), the
+   goroutine of EVERY input w is in exactly one of three places (the control states differ, see
+   [join_served_exclusive]):
+   (a) returned - input w was closed and drained, everything handed over on it was taken;
+   (b) parked in `range in_w` on an empty open input - and then the next send on input w is accepted at once,
+       even when unbuffered, whatever the state of the other inputs;
+   (c) holding one element that the OUTPUT cannot take (full and open): back-pressure from the consumer.
+   A Join that serves input i+1 only after input i has closed violates this. *)
+Theorem C12_join_every_input_served : forall (n : nat) (icaps ocaps : list nat) (s : state),
+  let c := join_stage n icaps ocaps in
+  reachable c s -> cancelled s = false -> quiescent c s ->
+  forall w, (w < n)%nat ->
+    (wc (ws s w) = WDone /\ cclosed (ins s w) = true /\ cbuf (ins s w) = [] /\ wtaken (ws s w) = sent s w) \/
+    (wc (ws s w) = WRecv /\ cbuf (ins s w) = [] /\ cclosed (ins s w) = false /\
+     forall x, step c s (ESent w x) <> None) \/
+    (exists eof x rest, wc (ws s w) = WRun eof (ASend 0 x :: rest) /\
+                        has_room (outs s 0) = false /\ cclosed (outs s 0) = false).
+Proof. exact join_every_input_served. Qed.
+Print Assumptions C12_join_every_input_served.
+
+(* hence, when the consumer keeps up (room in the output), nothing that was handed over on ANY input is held
+   back: every goroutine has returned or is parked on an empty open input, and has taken all of its input *)
+Theorem C12_join_room_nothing_held : forall (n : nat) (icaps ocaps : list nat) (s : state),
+  let c := join_stage n icaps ocaps in
+  reachable c s -> cancelled s = false -> quiescent c s -> has_room (outs s 0) = true ->
+  forall w, (w < n)%nat ->
+    (wc (ws s w) = WDone \/
+     (wc (ws s w) = WRecv /\ cclosed (ins s w) = false /\ forall x, step c s (ESent w x) <> None)) /\
+    cbuf (ins s w) = [] /\ wtaken (ws s w) = sent s w.
+Proof. exact join_room_nothing_held. Qed.
+Print Assumptions C12_join_room_nothing_held.
+
+(* and the element a parked goroutine is handed next goes straight through: with room in the output, the send on
+   input w, the receive and the forward - three steps that involve no other input - put it on the output *)
+Theorem C12_join_parked_forwards : forall (n : nat) (icaps ocaps : list nat) (s : state) (w : nat) (x : val),
+  let c := join_stage n icaps ocaps in
+  reachable c s -> cancelled s = false -> (w < n)%nat ->
+  wc (ws s w) = WRecv -> cbuf (ins s w) = [] -> cclosed (ins s w) = false -> has_room (outs s 0) = true ->
+  exists s', exec_from c s [ESent w x; EW w false; EW w false] = Some s' /\
+             cbuf (outs s' 0) = cbuf (outs s 0) ++ [(w, x)] /\ cbuf (ins s' w) = [] /\
+             sent s' w = sent s w ++ [x] /\ wtaken (ws s' w) = wtaken (ws s w) ++ [x].
+Proof. exact join_parked_forwards. Qed.
+Print Assumptions C12_join_parked_forwards.
+
+(* non-vacuity: two unbuffered inputs; input 1 delivers 7 while input 0 is open and was never sent to; the stage
+   is at rest, not cancelled, 7 has been received, both goroutines are in case (b) *)
+Example C12_join_served_example :
+  reachable ex_join_cfg ex_join_state /\ quiescent ex_join_cfg ex_join_state /\
+  cancelled ex_join_state = false /\ has_room (outs ex_join_state 0) = true /\
+  delivered ex_join_state 0 = [7%Z] /\ sent ex_join_state 0 = [] /\ cclosed (ins ex_join_state 0) = false /\
+  wc (ws ex_join_state 0) = WRecv /\ wc (ws ex_join_state 1) = WRecv.
+Proof. exact (conj ex_join_reachable (conj ex_join_quiescent ex_join_hyps)). Qed.
+Print Assumptions C12_join_served_example.
